@@ -39,6 +39,22 @@ class Sym:
         return hash(self.name)
 
 
+class IntSym(int):
+    """Member of an IntEnum class: an int that remembers its name and class (methods defined on the enum are resolved through it)."""
+
+    name: str
+    cls: Any
+
+    def __new__(cls, value: int, name: str, enum_cls: Any) -> "IntSym":
+        o = super().__new__(cls, value)
+        o.name = name
+        o.cls = enum_cls
+        return o
+
+    def __repr__(self) -> str:
+        return self.name
+
+
 class ClassRef:
     __slots__ = ("cls",)
 
@@ -141,7 +157,7 @@ NATIVE_TYPES = {"str": str, "int": int, "bool": bool, "list": list, "tuple": tup
 SAFE_BUILTINS: dict[str, Callable[..., Any]] = {
     "len": len, "bool": bool, "str": str, "int": int, "min": min, "max": max, "sorted": sorted, "enumerate": enumerate, "zip": zip,
     "range": range, "list": list, "tuple": tuple, "set": set, "dict": dict, "frozenset": frozenset, "reversed": reversed, "abs": abs,
-    "sum": sum, "repr": repr, "float": float,
+    "sum": sum, "repr": repr, "float": float, "chr": chr, "ord": ord,
 }  # fmt: skip
 NATIVE_EXC = (KeyError, IndexError, AttributeError, TypeError, ValueError, StopIteration, ZeroDivisionError)
 
@@ -154,6 +170,8 @@ class Interp:
         self.steps = 0
         self.depth = 0
         self._mod_cache: dict[tuple[str, str], Any] = {}
+        self._int_enums: dict[str, dict[str, IntSym]] = {}
+        self._noop = Obj(None, {}, label="logger")
         self._exc_mro: dict[str, tuple[str, ...]] = {}
         self.ignore_calls: set[str] = {"_griffe.logger.logger"}
         self.ext_handlers: dict[str, Callable[..., Any]] = {}
@@ -727,6 +745,8 @@ class Interp:
 
     def _global(self, mod: Module, name: str) -> Any:
         prog = self.prog
+        if f"{mod.name}.{name}" in self.ignore_calls:
+            return self._noop  # the logger object reached as a value (`getattr(logger, level)(...)`): every method is a no-op
         if name in mod.functions:
             return mod.functions[name]
         if name in mod.classes:
@@ -744,8 +764,10 @@ class Interp:
             m2, _, attr = full.rpartition(".")
             if m2 in prog.modules and attr in prog.modules[m2].assigns:
                 return self.global_name(prog.modules[m2], attr)
+            if m2 == "ast" and hasattr(ast, attr):
+                return getattr(ast, attr)
             return ExtRef(full)
-        if name in SAFE_BUILTINS or name in NATIVE_TYPES or name in ("isinstance", "any", "all", "getattr", "hasattr", "next", "iter", "issubclass", "callable", "print", "super", "id", "type", "map", "filter"):
+        if name in SAFE_BUILTINS or name in NATIVE_TYPES or name in ("isinstance", "any", "all", "getattr", "hasattr", "next", "iter", "issubclass", "callable", "print", "super", "id", "type", "map", "filter", "compile"):
             return ExtRef(f"builtins.{name}")
         if name in ("NotImplemented", "Ellipsis"):
             return Sym(name)
@@ -754,6 +776,8 @@ class Interp:
         raise AnalysisError(f"name `{name}` not bound in the abstract environment of {mod.name}")
 
     def _getattr(self, obj: Any, attr: str, env: Env | None) -> Any:  # noqa: PLR0911,PLR0912
+        if obj is self._noop:
+            return Native(lambda *a, **k: None)
         if isinstance(obj, Obj):
             if attr in obj.attrs:
                 v = obj.attrs[attr]
@@ -777,6 +801,8 @@ class Interp:
             raise AnalysisError(f"attribute `{attr}` of abstract {obj!r} is not in the abstract state and not defined by its class")
         if isinstance(obj, ClassRef):
             cls = obj.cls
+            if attr in cls.class_attrs and self._is_int_enum(cls) and attr in self._int_enum_members(cls):
+                return self._int_enum_members(cls)[attr]
             if attr in cls.class_attrs and self._is_enum(cls):
                 v = cls.class_attrs[attr]
                 return Sym(f"{cls.name}.{attr}", v.value if isinstance(v, ast.Constant) else None)
@@ -792,7 +818,17 @@ class Interp:
         if isinstance(obj, Module):
             return self.global_name(obj, attr)
         if isinstance(obj, ExtRef):
+            if obj.name == "ast" and hasattr(ast, attr):
+                return getattr(ast, attr)  # syntax-tree classes / constants of the stdlib (pure data definitions)
             return ExtRef(f"{obj.name}.{attr}")
+        if isinstance(obj, IntSym):
+            if attr == "value":
+                return int(obj)
+            if attr == "name":
+                return obj.name.split(".")[-1]
+            ms = self.prog.lookup_method(obj.cls, attr)
+            if ms:
+                return self._invoke(ms[0], [obj], {}, None) if ms[0].is_property else Bound(ms[0], obj)
         if isinstance(obj, Sym):
             if attr == "value":
                 return obj.value
@@ -802,6 +838,8 @@ class Interp:
         if isinstance(obj, Raised):
             if attr == "args":
                 return tuple(obj.payload or ())
+            if attr == "__class__":
+                return type(obj.exc, (), {})  # only its __name__ is observable
             raise AnalysisError(f"attribute {attr} of exception value")
         if obj is None:
             raise Raised("AttributeError")
@@ -843,12 +881,35 @@ class Interp:
                 return getattr(obj, attr)
             except AttributeError:
                 raise Raised("AttributeError") from None
+        if isinstance(obj, type) and attr in ("__name__", "__qualname__", "__module__"):
+            return getattr(obj, attr)
         # python-native value: expose a whitelisted method
         if isinstance(obj, (str, list, tuple, dict, set, frozenset, int, bool)):
             if not hasattr(obj, attr):
                 raise Raised("AttributeError")
             return ("native", obj, attr)
         raise AnalysisError(f"attribute access `{attr}` on {type(obj).__name__} not modelled")
+
+    def _is_int_enum(self, cls: ClassInfo) -> bool:
+        return any(b.split(".")[-1] == "IntEnum" for c in self.prog.mro(cls) for b in c.base_names)
+
+    def _int_enum_members(self, cls: ClassInfo) -> dict[str, IntSym]:
+        cache = self._int_enums
+        if cls.qualname not in cache:
+            members: dict[str, IntSym] = {}
+            last = 0
+            for m, v in cls.class_attrs.items():
+                if m.startswith("_"):
+                    continue
+                if isinstance(v, ast.Constant) and isinstance(v.value, int):
+                    last = v.value
+                elif isinstance(v, ast.Call) and (dotted(v.func) or "").split(".")[-1] == "auto" and not v.args:
+                    last += 1
+                else:
+                    continue
+                members[m] = IntSym(last, f"{cls.name}.{m}", cls)
+            cache[cls.qualname] = members
+        return cache[cls.qualname]
 
     def _is_enum(self, cls: ClassInfo) -> bool:
         return any(b.split(".")[-1] in ("Enum", "IntEnum", "StrEnum", "Flag") for c in self.prog.mro(cls) for b in c.base_names)
@@ -934,6 +995,11 @@ class Interp:
     def _construct(self, cls: ClassInfo, args: list[Any], kwargs: dict[str, Any]) -> Any:
         if cls.qualname in self.class_stubs:
             return self.class_stubs[cls.qualname](self, *args, **kwargs)
+        if self._is_int_enum(cls) and len(args) == 1:
+            for sym in self._int_enum_members(cls).values():
+                if isinstance(args[0], int) and int(sym) == int(args[0]):
+                    return sym
+            raise Raised("ValueError")
         if self._is_enum(cls) and len(args) == 1:
             for m, v in cls.class_attrs.items():
                 if isinstance(v, ast.Constant) and v.value == args[0]:
@@ -1002,6 +1068,13 @@ class Interp:
                     return False
             if short == "next":
                 it = args[0]
+                if hasattr(it, "__next__"):
+                    try:
+                        return next(it)
+                    except StopIteration:
+                        if len(args) > 1:
+                            return args[1]
+                        raise Raised("StopIteration") from None
                 seq = list(self._iterate(it))
                 if seq:
                     return seq[0]
@@ -1009,7 +1082,7 @@ class Interp:
                     return args[1]
                 raise Raised("StopIteration")
             if short == "iter":
-                return list(self._iterate(args[0]))
+                return iter(list(self._iterate(args[0])))  # a real, stateful iterator over the evaluated elements
             if short == "len" and isinstance(args[0], Obj):
                 return self._call_dunder(args[0], "__len__", [])
             if short in ("list", "tuple", "set", "frozenset", "sorted", "enumerate", "reversed") and args and isinstance(args[0], Obj) and "__native__" in args[0].attrs \
@@ -1037,6 +1110,12 @@ class Interp:
                     raise Raised(type(ex).__name__) from None
             if short == "print":
                 return None
+            if short == "type" and len(args) == 1:
+                if isinstance(args[0], Obj):
+                    return ClassRef(args[0].cls) if args[0].cls is not None else Sym("<type>")
+                if isinstance(args[0], Sym):
+                    return Sym(f"<type of {args[0].name}>")
+                return type(args[0])
             if short.endswith(("Error", "Exception")):
                 return Raised(short, args)
         if name in ("itertools.zip_longest", "zip_longest"):
@@ -1064,6 +1143,9 @@ class Interp:
                 if isinstance(v, Obj) and v.cls is not None and s.cls in self.prog.mro(v.cls):
                     return True
                 if isinstance(v, Sym) and v.name.split(".")[0] == s.cls.name:
+                    return True
+            elif isinstance(s, type):
+                if not isinstance(v, (Obj, Sym)) and isinstance(v, s):
                     return True
             elif isinstance(s, ExtRef):
                 if isinstance(v, Obj) and "__isa__" in v.attrs:
